@@ -17,7 +17,7 @@ Require Import Grits.Base Grits.Forms Grits.Expand Grits.TcTop Grits.Runtime.
 Require Import Grits.RuntimeFootprint Grits.proofs.RuntimeFacts Grits.proofs.Diamond Grits.proofs.Determinism Grits.proofs.AsyncSync Grits.proofs.RuntimeCheckFacts Grits.proofs.ForkJoin Grits.proofs.DeterminismExamples.
 Require Import Grits.Tc Grits.spec.RtTyping Grits.spec.Topo Grits.proofs.RtSafety Grits.proofs.RtInit Grits.proofs.RtTheorems Grits.proofs.DeterminismTyped Grits.proofs.TopoLin Grits.proofs.TopoStep Grits.proofs.TopoReach Grits.proofs.InitLinear.
 Require Import Grits.spec.SynOk Grits.proofs.RtTcSyn Grits.proofs.RtTheoremsTc Grits.proofs.DeterminismTc.
-Require Import Grits.proofs.LinBridge Grits.proofs.InitAccept Grits.proofs.DeterminismAccept Grits.proofs.TopoStepExt Grits.proofs.TopoFinish Grits.proofs.TopoDup Grits.proofs.InvAll Grits.proofs.DeterminismAll.
+Require Import Grits.proofs.LinBridge Grits.proofs.InitAccept Grits.proofs.DeterminismAccept Grits.proofs.TopoStepExt Grits.proofs.TopoFinish Grits.proofs.TopoDup Grits.proofs.InvAll Grits.proofs.DeterminismAll Grits.proofs.AsyncSync Grits.proofs.InvNP Grits.proofs.PlainNP Grits.proofs.DeterminismNP Grits.proofs.Balanced Grits.proofs.RtTheoremsTc.
 
 Theorem C03_step_is_move : forall md D F c ch, step md D F c ch = sres_of c (move_of md D F c ch).
 Proof. exact step_move. Qed.
@@ -588,6 +588,50 @@ Example C03_example_split_every_schedule :
               labels t ≡ₚ ["made"; "done"].
 Proof. exact example_split_every_schedule. Qed.
 
+(* ---- stage 6: the NON-POLARIZED mode.
+   (1) the invariant InvX is preserved by every step of the mode (all programs): a Run step is a DUP or an
+       internal step, a Rendezvous is an asynchronous send and its receipt, Control f t hands the
+       providers of the forward f to t (InvNP.topo_control);
+   (2) so Topo along the non-polarized runs is a theorem for parsed accepted closed programs (all_src_b);
+   (3) for programs WITHOUT forwards, drop and split (one provider name per process) the runs of the mode
+       ARE the synchronous runs, oracle by oracle: determinism and the last clause of C03 (the same
+       multiset as the polarized modes) follow.  With forwards the one-step diamond is FALSE in this mode
+       (Control f t against an internal step of t that leads to a call); the abstract theorem for
+       balanced joins that a proof would need is Balanced.uniform_balanced; the case analysis and the
+       weak simulation for forwards / unreclaimed drops are not done. *)
+Theorem C03_invx_step_np : forall D F teq, teq_laws D teq -> funs_typed D F teq -> funs_aff F -> nofd_funs F ->
+  forall c ch c', InvX D F teq c -> bufs_empty c -> step NP D F c ch = SStep c' -> InvX D F teq c' /\ bufs_empty c'.
+Proof. exact invx_step_np. Qed.
+
+Theorem C03_topo_runs_np_all : forall txt p p',
+  parse_string txt = POk p -> typecheck p = Accept p' -> in_fragment p' -> all_src_b p = true -> topo_runs_np p'.
+Proof. exact topo_runs_np_all. Qed.
+
+Theorem C03_np_run_sync : forall p p' fuel pick,
+  typecheck p = Accept p' -> plain_src_b p = true ->
+  exec_run fuel pick NP (p_types p') (p_funs p') (init_config p') =
+  exec_run fuel pick Sync (p_types p') (p_funs p') (init_config p').
+Proof. exact np_run_sync. Qed.
+
+Theorem C03_determinism_np_plain : forall txt p p' pick1 pick2 f1 f2 t1,
+  parse_string txt = POk p -> typecheck p = Accept p' -> in_fragment p' -> np_src_b p = true ->
+  exec_run f1 pick1 NP (p_types p') (p_funs p') (init_config p') = RQuiescent t1 -> (f1 <= f2)%nat ->
+  exists t2, exec_run f2 pick2 NP (p_types p') (p_funs p') (init_config p') = RQuiescent t2 /\
+             cfg_equiv t2 t1 /\ labels t2 ≡ₚ labels t1.
+Proof. exact determinism_np_plain. Qed.
+
+Theorem C03_np_polarized_agree_plain : forall txt p p' pick1 f1 t1,
+  parse_string txt = POk p -> typecheck p = Accept p' -> in_fragment p' -> np_src_b p = true ->
+  exec_run f1 pick1 NP (p_types p') (p_funs p') (init_config p') = RQuiescent t1 ->
+  (forall pick2 f2, (f1 <= f2)%nat ->
+     exists t2, exec_run f2 pick2 Sync (p_types p') (p_funs p') (init_config p') = RQuiescent t2 /\ labels t2 ≡ₚ labels t1) /\
+  exists n, forall pick2 f2, (n < f2)%nat ->
+    exists t2, exec_run f2 pick2 Async (p_types p') (p_funs p') (init_config p') = RQuiescent t2 /\ labels t2 ≡ₚ labels t1.
+Proof. exact np_polarized_agree_plain. Qed.
+
+Example C03_example_np_accept : np_accept_text example_text = true.
+Proof. exact example_np_accept. Qed.
+
 Print Assumptions C03_init_linear_accept.
 Print Assumptions C03_topo_runs_core_accept.
 Print Assumptions C03_determinism_core_accept.
@@ -609,3 +653,10 @@ Print Assumptions C03_async_sync_agree_all.
 Print Assumptions C03_all_accept_sound.
 Print Assumptions C03_example_all_accept.
 Print Assumptions C03_example_split_every_schedule.
+Print Assumptions C03_invx_step_np.
+Print Assumptions C03_topo_runs_np_all.
+Print Assumptions C03_np_run_sync.
+Print Assumptions C03_determinism_np_plain.
+Print Assumptions C03_np_polarized_agree_plain.
+Print Assumptions C03_example_np_accept.
+Print Assumptions uniform_balanced.
